@@ -17,6 +17,22 @@ PROPS = {
                  "values the constructors reject"],
         assumptions=[],
     ),
+    "C02": dict(
+        modules=["harness.c02"],
+        level="other",
+        explanation="Bounded symbolic execution of the real primitive writers compared with an independent reading of "
+                    "KMIP 1.1 section 9.1 (kv/ttlv_ref.py: no struct, no PyKMIP import): header bytes, mandated "
+                    "length, big-endian/two's-complement value, zero padding, multiple of 8 - for every value in the "
+                    "bounds; and of the real response construction (process_request, _process_batch, _build_response, "
+                    "build_error_response, the session's error answers) whose encoded output is walked by the "
+                    "reference walker and checked against the envelope rules of the statement.",
+        stubs=["_process_operation stub with symbolic outcome per item (envelope conditions)", "FakeSession",
+               "NullLogger", "engine.time returns a symbolic time stamp"],
+        outside=["BigInteger beyond the stated bit bound except the pinned points", "strings longer than the bound",
+                 "payload contents of real operations inside the envelope (C01/C05/C13 material)",
+                 "batches of more than 3 items"],
+        assumptions=["kv/ttlv_ref.py is a faithful reading of KMIP 1.1 section 9.1"],
+    ),
     "C03": dict(
         modules=["harness.c03", "harness.c03_sites"],
         level="other",
@@ -126,6 +142,15 @@ PROPS = {
 }
 
 CLAIMS = {
+    "C02": dict(
+        text="For every primitive value inside the bounds the bytes written by the real code are identical to those "
+             "of an independent TTLV encoder (header, mandated length, two's-complement big-endian value, zero "
+             "padding, multiple of 8); every response the engine builds for batches of up to 3 items with any mix of "
+             "outcomes, under each KMIP version, and every session-level error answer, encodes to TTLV accepted by an "
+             "independent walker, carries the request's version, the clock's time stamp, a batch count equal to the "
+             "items present, a status in every item and reason+message exactly on failures.",
+        note="Independent reference encoder/walker is ~150 lines written from the specification text; bounded.",
+    ),
     "C16": dict(
         text="For every 32-bit (major, minor) the server accepts exactly the six supported versions and echoes the "
              "accepted one in header, return value and attribute policy; every operation is refused as not supported "
